@@ -36,6 +36,16 @@ COERCIBLE_TARGET = [
     ('#[derive(Ex)] #[derive_ex(DerefMut)] struct X { v: Vec<u8> }  impl Deref for X { type Target = [u8]; .. }',
      '#[derive(::derive_ex::Ex)]\n#[derive_ex(DerefMut)]\npub struct X { pub v: Vec<u8> }\n'
      'impl ::core::ops::Deref for X { type Target = [u8]; fn deref(&self) -> &[u8] { &self.v } }\npub fn run() {}'),
+    # ... the same on generic structs (a field type that mentions a parameter and coerces)
+    ('#[derive_ex(DerefMut)] struct X<T>(Vec<T>);  impl<T> Deref for X<T> { type Target = [T]; .. }',
+     '#[::derive_ex::derive_ex(DerefMut)]\npub struct X<T>(pub Vec<T>);\n'
+     'impl<T> ::core::ops::Deref for X<T> { type Target = [T]; fn deref(&self) -> &[T] { &self.0 } }\npub fn run() {}'),
+    ('#[derive(Ex)] #[derive_ex(DerefMut)] struct X<T> { b: Box<T> }  impl<T> Deref for X<T> { type Target = T; .. }',
+     '#[derive(::derive_ex::Ex)]\n#[derive_ex(DerefMut)]\npub struct X<T> { pub b: Box<T> }\n'
+     'impl<T> ::core::ops::Deref for X<T> { type Target = T; fn deref(&self) -> &T { &self.b } }\npub fn run() {}'),
+    ('#[derive_ex(DerefMut)] struct X<const N: usize>([u8; N]);  impl<const N: usize> Deref for X<N> { type Target = [u8]; .. }',
+     '#[::derive_ex::derive_ex(DerefMut)]\npub struct X<const N: usize>(pub [u8; N]);\n'
+     'impl<const N: usize> ::core::ops::Deref for X<N> { type Target = [u8]; fn deref(&self) -> &[u8] { &self.0 } }\npub fn run() {}'),
 ]
 
 
